@@ -25,6 +25,8 @@ func init() {
 	plans["C05"] = &Plan{
 		Items: []Item{{Plugin: "privileges"}, {Func: "hotline.(*ClientConn).Authorize"}, {Func: "hotline.(*AccessBitmap).IsSet"},
 			// the kind (file / folder) that selects the privilege is the kind of the addressed item
+			{Plugin: "handler-contract", Func: "mobius.HandleTranAgreed", Kinds: []string{"site"}},
+			{Plugin: "handler-contract", Func: "mobius.HandleSetClientUserInfo", Kinds: []string{"site"}},
 			{Plugin: "handler-contract", Func: "mobius.HandleMoveFile", Kinds: []string{"site"}},
 			{Plugin: "handler-contract", Func: "mobius.HandleDeleteFile", Kinds: []string{"site"}},
 			// the upload-folder / drop-box rules look at the path's declared last item: the decoded path
@@ -48,6 +50,7 @@ func init() {
 			{Plugin: "sites", Func: "hotline.receiveFile", Kinds: siteKinds},
 			{Plugin: "sites", Func: "hotline.UploadFolderHandler", Kinds: siteKinds},
 			{Plugin: "sites", Func: "hotline.DownloadFolderHandler", Kinds: siteKinds},
+			{Plugin: "sites", Func: "hotline.DownloadFolderHandler$1", Kinds: []string{"site"}},
 		}, fnItems(nil, "hotline.transactionScanner", "hotline.FieldScanner", "hotline.(*handshake).Write", "hotline.(*transfer).Write")...),
 		Decided: []string{
 			"split functions (transactionScanner, FieldScanner): no token from an incomplete prefix, the token and advance depend only on the bytes, never on atEOF (functional contract, all inputs)",
@@ -89,6 +92,8 @@ func init() {
 			{Plugin: "crash", Func: "mobius.(*ThreadedNewsYAML).Load", Opts: "loader"},
 			{Plugin: "crash", Func: "mobius.(*FlatNews).Reload", Opts: "loader"},
 			{Plugin: "crash", Func: "mobius.(*BanFile).Load", Opts: "loader"},
+			{Plugin: "sites", Func: "mobius.NewYAMLAccountManager", Kinds: []string{"site"}},
+			{Plugin: "sites", Func: "mobius.writeFileAtomic", Kinds: []string{"site", "post"}},
 			{Plugin: "sites", Func: "mobius.(*ThreadedNewsYAML).DeleteNewsItem", Kinds: []string{"post"}},
 			{Plugin: "sites", Func: "mobius.(*ThreadedNewsYAML).DeleteArticle", Kinds: []string{"post"}},
 			{Plugin: "sites", Func: "mobius.(*ThreadedNewsYAML).PostArticle", Kinds: []string{"post"}},
@@ -138,6 +143,7 @@ func init() {
 			{Plugin: "sites", Func: "hotline.(*ClientConn).Authenticate", Kinds: siteKinds},
 			{Plugin: "handler-contract", Func: "mobius.HandleDeleteUser", Kinds: []string{"site"}},
 			{Plugin: "handler-contract", Func: "mobius.HandleListUsers", Kinds: []string{"site", "inv-step", "inv-init"}},
+			{Plugin: "sites", Func: "mobius.writeFileAtomic", Kinds: []string{"site", "post"}},
 			// the login that is checked is the login that was sent (no normalisation the account table does not share)
 			{Plugin: "sites", Func: "hotline.(*Server).handleNewConnection", Kinds: []string{"site"}},
 			{Plugin: "handler-contract", Func: "mobius.HandleUpdateUser", Kinds: []string{"site"}},
@@ -166,7 +172,7 @@ func init() {
 			{Plugin: "handler-contract", Func: "mobius.HandleUpdateUser", Kinds: []string{"site"}},
 			{Plugin: "handler-contract", Func: "mobius.HandleDeleteUser", Kinds: []string{"site"}},
 		}, fnItems([]string{"guarded", "nopanic"},
-			"hotline.(*Server).rateLimiterFor",
+			"hotline.(*Server).rateLimiterFor", "hotline.(*User).Read",
 			"hotline.(*MemChatManager).New", "hotline.(*MemChatManager).Join", "hotline.(*MemChatManager).Leave", "hotline.(*MemChatManager).Members",
 			"hotline.(*MemChatManager).GetSubject", "hotline.(*MemChatManager).SetSubject",
 			"hotline.(*MemFileTransferMgr).Add", "hotline.(*MemFileTransferMgr).Get", "hotline.(*MemFileTransferMgr).Delete",
@@ -288,6 +294,8 @@ func init() {
 		Items: append([]Item{
 			{Plugin: "streams", Func: "hotline.DownloadHandler", Kinds: siteKinds, Depth: 2, Env: []string{"hotline.NewFileWrapper"}},
 			{Plugin: "handler-contract", Func: "mobius.HandleDownloadFile", Kinds: []string{"site"}},
+			{Plugin: "sites", Func: "hotline.(*OSFileStore).Stat", Kinds: []string{"site"}},
+			{Plugin: "sites", Func: "hotline.(*OSFileStore).Open", Kinds: []string{"site"}},
 		}, fnItems(nil, "hotline.(*fileWrapper).flattenedFileObject", "hotline.NewFileWrapper",
 			"hotline.(*FlatFileInformationFork).Write", "hotline.(*FlatFileInformationFork).Size",
 			"hotline.(*flattenedFileObject).TransferSize", "hotline.(*flattenedFileObject).Read", "hotline.(*FlatFileInformationFork).Read",
@@ -354,6 +362,45 @@ func init() {
 			{Plugin: "sites", Func: "hotline.sendBanMessage", Kinds: siteKinds},
 			// every queued transaction is sent once, by a goroutine that owns it
 			{Plugin: "contain", Opts: "dispatcher"},
+			// a reply is built on the requester's own connection, for the request being handled (the 38 handlers that reply; four send no reply, HandleSetFileInfo is left out: two of its refusal branches are unreachable in the handler model without the path algebra)
+			{Plugin: "handler-contract", Func: "mobius.HandleChatSend", Kinds: []string{"site"}},
+			{Plugin: "handler-contract", Func: "mobius.HandleDelNewsArt", Kinds: []string{"site"}},
+			{Plugin: "handler-contract", Func: "mobius.HandleDelNewsItem", Kinds: []string{"site"}},
+			{Plugin: "handler-contract", Func: "mobius.HandleDeleteFile", Kinds: []string{"site"}},
+			{Plugin: "handler-contract", Func: "mobius.HandleDeleteUser", Kinds: []string{"site"}},
+			{Plugin: "handler-contract", Func: "mobius.HandleDisconnectUser", Kinds: []string{"site"}},
+			{Plugin: "handler-contract", Func: "mobius.HandleDownloadBanner", Kinds: []string{"site"}},
+			{Plugin: "handler-contract", Func: "mobius.HandleDownloadFile", Kinds: []string{"site"}},
+			{Plugin: "handler-contract", Func: "mobius.HandleDownloadFolder", Kinds: []string{"site"}},
+			{Plugin: "handler-contract", Func: "mobius.HandleGetClientInfoText", Kinds: []string{"site"}},
+			{Plugin: "handler-contract", Func: "mobius.HandleGetFileInfo", Kinds: []string{"site"}},
+			{Plugin: "handler-contract", Func: "mobius.HandleGetFileNameList", Kinds: []string{"site"}},
+			{Plugin: "handler-contract", Func: "mobius.HandleGetMsgs", Kinds: []string{"site"}},
+			{Plugin: "handler-contract", Func: "mobius.HandleGetNewsArtData", Kinds: []string{"site"}},
+			{Plugin: "handler-contract", Func: "mobius.HandleGetNewsArtNameList", Kinds: []string{"site"}},
+			{Plugin: "handler-contract", Func: "mobius.HandleGetNewsCatNameList", Kinds: []string{"site"}},
+			{Plugin: "handler-contract", Func: "mobius.HandleGetUser", Kinds: []string{"site"}},
+			{Plugin: "handler-contract", Func: "mobius.HandleGetUserNameList", Kinds: []string{"site"}},
+			{Plugin: "handler-contract", Func: "mobius.HandleInviteNewChat", Kinds: []string{"site"}},
+			{Plugin: "handler-contract", Func: "mobius.HandleInviteToChat", Kinds: []string{"site"}},
+			{Plugin: "handler-contract", Func: "mobius.HandleJoinChat", Kinds: []string{"site"}},
+			{Plugin: "handler-contract", Func: "mobius.HandleKeepAlive", Kinds: []string{"site"}},
+			{Plugin: "handler-contract", Func: "mobius.HandleListUsers", Kinds: []string{"site"}},
+			{Plugin: "handler-contract", Func: "mobius.HandleMakeAlias", Kinds: []string{"site"}},
+			{Plugin: "handler-contract", Func: "mobius.HandleMoveFile", Kinds: []string{"site"}},
+			{Plugin: "handler-contract", Func: "mobius.HandleNewFolder", Kinds: []string{"site"}},
+			{Plugin: "handler-contract", Func: "mobius.HandleNewNewsCat", Kinds: []string{"site"}},
+			{Plugin: "handler-contract", Func: "mobius.HandleNewNewsFldr", Kinds: []string{"site"}},
+			{Plugin: "handler-contract", Func: "mobius.HandleNewUser", Kinds: []string{"site"}},
+			{Plugin: "handler-contract", Func: "mobius.HandlePostNewsArt", Kinds: []string{"site"}},
+			{Plugin: "handler-contract", Func: "mobius.HandleSendInstantMsg", Kinds: []string{"site"}},
+			{Plugin: "handler-contract", Func: "mobius.HandleSetUser", Kinds: []string{"site"}},
+			{Plugin: "handler-contract", Func: "mobius.HandleTranAgreed", Kinds: []string{"site"}},
+			{Plugin: "handler-contract", Func: "mobius.HandleTranOldPostNews", Kinds: []string{"site"}},
+			{Plugin: "handler-contract", Func: "mobius.HandleUpdateUser", Kinds: []string{"site"}},
+			{Plugin: "handler-contract", Func: "mobius.HandleUploadFile", Kinds: []string{"site"}},
+			{Plugin: "handler-contract", Func: "mobius.HandleUploadFolder", Kinds: []string{"site"}},
+			{Plugin: "handler-contract", Func: "mobius.HandleUserBroadcast", Kinds: []string{"site"}},
 		}, fnItems(nil, "hotline.(*ClientConn).NewReply", "hotline.(*ClientConn).NewErrReply", "hotline.NewTransaction", "hotline.(*Transaction).Read", "hotline.(*Transaction).Size", "hotline.NewField", "hotline.(*Field).Read", "hotline.(*MemClientMgr).Add", "hotline.(*MemClientMgr).Get")...),
 		Decided: []string{
 			"Transaction.Read serialises without consuming: fields and their cursors are untouched, so a transaction that is broadcast, or read in several pieces, is whole for every recipient (frame obligations of Read and of its field loop)",
@@ -365,7 +412,7 @@ func init() {
 		Undecided: []string{"the bytes of Transaction.Read after the 22-byte header (field concatenation) are not under a functional contract", "delivery order between goroutines; at most one reply per request per handler"},
 	}
 	plans["C13"] = &Plan{
-		Items: append(fnItems(nil, "hotline.(*UserFlags).IsSet", "hotline.(*MemClientMgr).Add", "hotline.(*MemClientMgr).Delete", "hotline.(*MemClientMgr).Get", "hotline.(*MemClientMgr).List"),
+		Items: append(append(fnItems(nil, "hotline.(*UserFlags).IsSet", "hotline.(*User).Read", "hotline.(*MemClientMgr).Add", "hotline.(*MemClientMgr).Delete", "hotline.(*MemClientMgr).Get", "hotline.(*MemClientMgr).List"),
 			Item{Plugin: "handler-contract", Func: "mobius.HandleSetClientUserInfo", Kinds: []string{"site"}},
 			Item{Plugin: "handler-contract", Func: "mobius.HandleTranAgreed", Kinds: []string{"site"}},
 			Item{Plugin: "handler-contract", Func: "mobius.HandleSendInstantMsg", Kinds: []string{"site"}},
@@ -377,6 +424,7 @@ func init() {
 			// only a connection that logged in (and was given an ID) ever unregisters an ID or is
 			// announced as having left
 			Item{Plugin: "gate", Func: "hotline.(*Server).handleNewConnection"}),
+			Item{Func: "hotline.(*UserFlags).Set", ThoroughOnly: true}),
 		Decided: []string{
 			"handleNewConnection: Disconnect -- which removes the connection's ID from the registry and tells everyone that user left -- is registered and reached only after a successful login (a refused connection still carries the zero ID, which a live user can hold after the counter wrapped)",
 			"Disconnect removes exactly the leaving client from the registry before the user-left notices are built, sends one notice (type 302, field 103 = its ID) per remaining client, and closes the connection on every path; SendAll (both) builds one transaction of the given type per registered client, addressed to it, and sends each; handleTransaction forwards every transaction the handler returns and resets the idle timer under the mutex",
@@ -433,7 +481,7 @@ func init() {
 			"hotline.(*FlatFileInformationFork).Read", "hotline.(*FlatFileInformationFork).DataSize", "hotline.(*FlatFileInformationFork).Size",
 			"hotline.(*FlatFileInformationFork).ReadNameSize", "hotline.(*FlatFileInformationFork).SetComment",
 			"hotline.(*fileWrapper).flattenedFileObject", "hotline.NewFileWrapper", "hotline.(*ServerRecord).Write", "hotline.NewTime",
-			"hotline.(*FileResumeData).BinaryMarshal", "hotline.NewFileResumeData", "hotline.NewForkInfoList", "hotline.(*Field).DecodeNewsPath",
+			"hotline.(*FileResumeData).BinaryMarshal", "hotline.NewFileResumeData", "hotline.NewForkInfoList", "hotline.(*Field).DecodeNewsPath", "hotline.EncodeFilePath",
 			"hotline.(*FlatFileInformationFork).UnmarshalBinary", "hotline.(*FlatFileInformationFork).Write",
 			"hotline.(*flattenedFileObject).Read", "hotline.(*FileHeader).Read",
 			"hotline.(*NewsArtList).Read", "hotline.(*NewsCategoryListData15).Read", "hotline.(*NewsArtListData).Read", "hotline.(*TrackerRegistration).Read",
